@@ -24,6 +24,7 @@ type Ob struct {
 
 // Report collects the obligations of one property run.
 type Report struct {
+	lenient bool // scratch report of a re-exported rule set: rules are declared on first use
 	Prop  string
 	Tier  string
 	W     *World
@@ -56,6 +57,9 @@ func (r *Report) Rule(id string, min int, statement string) {
 }
 
 func (r *Report) add(rule, construct string, pos token.Pos, verdict string, nontrivial bool, format string, a ...any) {
+	if _, ok := r.Rules[rule]; !ok && r.lenient {
+		r.Rule(rule, 0, "")
+	}
 	if _, ok := r.Rules[rule]; !ok {
 		panic("rule not declared: " + rule)
 	}
